@@ -30,7 +30,8 @@ WORKLOADS = [
     "create_fresh", "create_overwrite", "create_buffered", "reopen_compute_meta", "trees_fresh", "trees_other_edges", "trees_other_closed",
     "trees_other_count", "trees_forced", "trees_forced_other_edges", "trees_unbinned_over_binned", "measure_over_cached",
     "corrfunc_file_fresh", "corrfunc_file_over_old", "corrdata_files_fresh", "corrdata_files_over_old",
-    "histdata_files_over_old", "config_file_fresh", "config_file_over_old",
+    "histdata_files_over_old", "config_file_fresh", "config_file_over_old", "corrdata_files_dotted_over_old",
+    "histdata_files_globchars_over_old",
 ]
 
 
@@ -73,6 +74,7 @@ class World:
         self.old = table(20)
         self.unk = table(25, z=False)
         self.ur = table(25, z=False)
+        self.ref2 = table(22)
 
     def cobj(self):
         return cats.coords_obj(self.centres)
@@ -114,7 +116,7 @@ class C08(Check):
     def cases(self, tier, seed):
         if tier == "quick":
             for w in ("create_fresh", "create_overwrite", "create_buffered", "trees_fresh", "trees_other_edges",
-                      "trees_forced_other_edges", "measure_over_cached", "corrfunc_file_fresh", "corrdata_files_over_old",
+                      "trees_forced_other_edges", "measure_over_cached", "corrfunc_file_fresh", "corrdata_files_dotted_over_old",
                       "config_file_over_old"):
                 for s in range(4):
                     yield dict(workload=w, shard=s, of=4, stride=1, seed=seed)
@@ -151,7 +153,8 @@ class C08(Check):
             comp.mkdir()
             unk = cats.create(comp / "unk", world.unk, centers=world.cobj())
             ur = cats.create(comp / "ur", world.ur, centers=world.cobj())
-            _ = (unk, ur)
+            ref2 = cats.create(comp / "ref2", world.ref2, centers=world.cobj())
+            _ = (unk, ur, ref2)
             spec = self._spec(wname, world, state, comp, tmp)
             # ---- references ---------------------------------------------------------------------
             refs = spec["references"]()
@@ -334,14 +337,18 @@ class C08(Check):
         cfgA, cfgB, cfgC = make_cfg(EDGES_A), make_cfg(EDGES_B), make_cfg(EDGES_C)
         cfgA_left = make_cfg(EDGES_A, "left")
 
-        def measure(cat_dir, cfg, comp_dir):
+        def measure(cat_dir, cfg, comp_dir, as_unknown=False):
             import yaw
 
             ref = Catalog(cat_dir, max_workers=1)
+            if as_unknown:
+                # the catalog under test plays the unknown sample (its trees are requested without binning)
+                return digest_corrfuncs(yaw.crosscorrelate(cfg, Catalog(comp_dir / "ref2", max_workers=1), ref,
+                                                           unk_rand=Catalog(comp_dir / "ur", max_workers=1), max_workers=1))
             return digest_corrfuncs(yaw.crosscorrelate(cfg, ref, Catalog(comp_dir / "unk", max_workers=1),
                                                        unk_rand=Catalog(comp_dir / "ur", max_workers=1), max_workers=1))
 
-        def fresh_measure(table, cfg, tag):
+        def fresh_measure(table, cfg, tag, as_unknown=False):
             d = tmp / f"fresh-{tag}"
             shutil.rmtree(d, ignore_errors=True)
             d.mkdir()
@@ -349,7 +356,7 @@ class C08(Check):
             # patch files => bit-identical floating-point sums)
             cats.create(d / "ref", table, centers=world.cobj(), chunksize=40 if table is world.new and wname.startswith("create") else None)
             shutil.copytree(comp, d / "comp")
-            val = measure(d / "ref", cfg, d / "comp")
+            val = measure(d / "ref", cfg, d / "comp", as_unknown=as_unknown)
             shutil.rmtree(d)
             return val
 
@@ -368,12 +375,12 @@ class C08(Check):
             return dict(keys=[int(k) for k in cat.keys()], all=tot, per_patch={str(k): v for k, v in per.items()},
                         meta_n=[int(x) for x in cat.get_num_records()])
 
-        def probe_measure(cfg):
+        def probe_measure(cfg, as_unknown=False):
             def run(pdir):
                 # companions are copied next to the state so that the probe never touches shared directories
                 cdir = pdir / "_probe_comp"
                 shutil.copytree(comp, cdir)
-                return measure(pdir / "ref", cfg, cdir)
+                return measure(pdir / "ref", cfg, cdir, as_unknown=as_unknown)
             return run
 
         def judge_catalog(pname, value, refs, allowed):
@@ -399,7 +406,8 @@ class C08(Check):
                 refs = dict(records=record_refs(), measure={})
                 for w in which_records:
                     for c in cfgnames:
-                        refs["measure"][(w, c)] = fresh_measure(getattr(world, w), cfgs[c], f"{w}-{c}")
+                        refs["measure"][(w, c)] = fresh_measure(getattr(world, w), cfgs[c.removeprefix("unk")], f"{w}-{c}",
+                                                                as_unknown=c.startswith("unk"))
                 return refs
             return make
 
@@ -467,8 +475,10 @@ class C08(Check):
                                   force=wname.startswith("trees_forced"), max_workers=1)
 
             names = sorted({n for n in (prior, target, "A", "B") if n})
-            spec = dict(prepare=prepare, workload=workload, references=catalog_refs(("new",), names),
-                        probes=dict({"open": probe_open}, **{f"measure:{n}": probe_measure(cfgs[n]) for n in names}),
+            # ... and as the unknown sample of a measurement (trees requested without binning)
+            spec = dict(prepare=prepare, workload=workload, references=catalog_refs(("new",), names + ["unkA"]),
+                        probes=dict({"open": probe_open, "measure:unkA": probe_measure(cfgA, as_unknown=True)},
+                                    **{f"measure:{n}": probe_measure(cfgs[n]) for n in names}),
                         judge=lambda p, v, r: judge_catalog(p, v, r, ("new",)))
         else:
             spec = self._file_spec(wname, world, state)
@@ -499,9 +509,11 @@ class C08(Check):
         elif wname.startswith("corrdata_files") or wname.startswith("histdata_files"):
             cls = CorrData if wname.startswith("corrdata") else HistData
             new, old = mk_data(cls, 1), mk_data(cls, 2)
-            path = state / "result"
+            # prefixes as users write them: plain, with a dot in the last component, with glob characters
+            stem = "nz_zmax1.2" if "dotted" in wname else "nz[a]" if "globchars" in wname else "result"
+            path = state / stem
             write = lambda obj: obj.to_files(path)  # noqa: E731
-            read = lambda p: cls.from_files(p / "result")  # noqa: E731
+            read = lambda p: cls.from_files(p / stem)  # noqa: E731
 
             def dig(o):
                 # what a reader gets: values to the precision of the text format
